@@ -30,8 +30,9 @@ read), `content()/firstBytes()/read()/write()/put()`, `TextFile::write/append/op
 bytes, the size mask, the byte order of the two unit loops) are regenerated from the source
 (`Gen/FileGen.lean`).  Core Lean only.
 
-`readLine` uses `strlen`, so it is modelled for NUL-free content only (the property's domain); the
-harness and the driver both answer `err nul` for a line read on a file containing a NUL.
+`readLine(String&)` uses `strlen` on each chunk: the model keeps that (bytes of a chunk behind a NUL are lost),
+so it is total on all bytes; the theorems about lines assume NUL-free content (the property's domain).
+`readLine(char)` appends byte by byte: the harness and the driver answer `err nul` for it on a file with a NUL.
 -/
 namespace AslModel.FileText
 open Gen.File
@@ -87,26 +88,30 @@ def dropCR : Bytes → Bytes
     iterations stored).  Result: ((the string left in `s`, the returned `bool`), the stream afterwards).
 
     `fgets(&s[m], chunk, _file)` has room for `chunk - 1 = k + 1` bytes.  It returns NULL exactly when it
-    stores nothing (first branch: `s.fix(m); return false`).  Otherwise `n = m + strlen` is the length of
-    everything stored so far; if the last stored byte is LF it is removed together with one CR before it
-    (which may have been stored by an earlier iteration) and the loop ends. -/
+    stores nothing (first branch: `s.fix(m); return false`).  Otherwise `n = m + strlen(*s + m)`: only the
+    bytes before the first NUL of the chunk count (`vis`), the rest of the chunk is overwritten by the next
+    `fgets`.  If `n > 0` and the last counted byte is LF, it is removed together with one CR before it (which
+    may have been stored by an earlier iteration) and the loop ends; otherwise `m = n` and the loop goes on
+    (`n = 0` included — repair d08b735: the code used to read `s[-1]` there). -/
 def readLineLoop (k : Nat) (racc : Bytes) (s : RStream) : (Bytes × Bool) × RStream :=
   match h : fgetsAux (k + 1) s.rest with
   | ([], r, out) => ((racc.reverse, false), { rest := r, eof := s.eof || out })
   | (c :: ch, r, out) =>
-    let rall := (c :: ch).reverse ++ racc
+    let vis := (c :: ch).takeWhile (· != 0)
+    let rall := vis.reverse ++ racc
     let s' : RStream := { rest := r, eof := s.eof || out }
     match rall with
-    | [] => ((racc.reverse, false), s')
+    | [] => readLineLoop k rall s'
     | x :: t =>
       if x = 10 then (((dropCR t).reverse, true), s')
       else readLineLoop k rall s'
 termination_by s.rest.length
 decreasing_by
-  have := fgetsAux_length (k + 1) s.rest
-  rw [h] at this
-  simp only [List.length_cons] at this
-  omega
+  all_goals
+    have := fgetsAux_length (k + 1) s.rest
+    rw [h] at this
+    simp only [List.length_cons] at this
+    omega
 
 /-- `readLine(String& s)` on an open stream, with the `chunk` of the source (`chunk ≥ 2`; the translator
     rejects a smaller one: the code could not terminate) -/
@@ -133,16 +138,20 @@ theorem readLineLoop_progress (k : Nat) (racc : Bytes) (s : RStream) :
       rw [hs] at h
       simp only [fgetsAux] at h
       split at h <;> simp at h
-  | case2 racc s c ch r out h rall s' hr =>
-    simp [rall] at hr
-  | case3 racc s c ch r out h rall s' t hr =>
+  | case2 racc s c ch r out h vis rall s' hr ih =>
+    have hl := fgetsAux_length (k + 1) s.rest
+    rw [h] at hl
+    simp only [List.length_cons] at hl
+    have hs' : s'.rest.length = r.length := rfl
+    omega
+  | case3 racc s c ch r out h vis rall s' t hr =>
     have hl := fgetsAux_length (k + 1) s.rest
     rw [h] at hl
     simp only [List.length_cons] at hl
     have hs' : s'.rest.length = r.length := rfl
     simp only
     omega
-  | case4 racc s c ch r out h rall s' x t hr hx ih =>
+  | case4 racc s c ch r out h vis rall s' x t hr hx ih =>
     have hl := fgetsAux_length (k + 1) s.rest
     rw [h] at hl
     simp only [List.length_cons] at hl
